@@ -186,7 +186,7 @@ def run_property(pid, tier, seed, only_units=None, quiet=False):
 
     REPLAYS = os.path.join(VERIF, 'replays') if os.path.realpath(X.REPO) == '/repo' else os.path.join(D.BUILD, 'replays_scratch')
     os.makedirs(REPLAYS, exist_ok=True)
-    kf = [k for k in known_findings() if k.get('property') == pid and k.get('status', 'open') == 'open']
+    kf = [k for k in known_findings() if (k.get('property') == pid or pid in k.get('also', [])) and k.get('status', 'open') == 'open']
     printed = []
     nviol = 0
     seen = set()
